@@ -1,4 +1,5 @@
 import IceModel.AgentCore
+import IceProofs.AgentAuto
 /-!
 # C06 — library: the bookkeeping *view* of an agent and the relations `Same` / `Evo`
 
@@ -223,6 +224,17 @@ theorem Same.pingAll (a : Agent) (now : Nat) : Same a (a.pingAll now).1 := by
         | exact m1 _ _ (fun p => rfl) (m1 _ _ (fun p => rfl) hb)
         | exact m1 _ _ (fun p => rfl) (p1 _ _ _ hb)
         | exact m1 _ _ (fun p => rfl) (p1 _ _ _ (m1 _ _ (fun p => rfl) hb))
+
+/-- automatic renomination: pings, a waiting pair marked in-progress, one nominating request, three counters -/
+theorem Same.autoRenom (a : Agent) (now : Nat) : Same a (a.autoRenom now).1 := by
+  refine IceProofs.Auto.autoRenom_parts (P := fun x => Same a x.1) ?_ a (Same.refl a)
+  exact {
+    mark := fun b _ id _ h _ _ => h.trans (Same.modPair b id _ (fun _ => rfl))
+    ping := fun b _ l r h _ _ => h.trans (Same.ping b now l r)
+    time := fun _ _ h => h.trans rfl
+    count := fun _ _ h => h.trans rfl
+    issue := fun b _ l r nom h _ _ _ _ _ => h.trans (Same.sendRequest b now l r true nom)
+    log := fun _ _ _ h => h.trans rfl }
 
 /-! ## `Evo` — evolution by the non-wiping helpers -/
 
